@@ -602,11 +602,18 @@ func (e *Engine) dischargeAll(s *Solver, obls []*Obligation, workers int) []*Obl
 	wg.Wait()
 	// last chance for obligations that ran out of time: one at a time (the machine may have been
 	// busy with the other queries of this run, or with other checks), long limit, more seeds.
-	// At most six, so that a tree with many genuinely failing obligations is not held up.
-	if s.lastChance > 0 {
+	// Only when at most three obligations are affected, so that a tree that genuinely fails is not held up.
+	timedOut := 0
+	for _, j := range jobs {
+		if j.r.Status == "failed" && j.r.FailObl == j.o && j.r.Fail != nil && j.r.Fail.Status == "timeout" {
+			timedOut++
+		}
+	}
+	// many obligations out of time = a tree that really fails; one or two = possibly a busy machine
+	if s.lastChance > 0 && timedOut <= 3 {
 		n := 0
 		for _, j := range jobs {
-			if n >= 6 {
+			if n >= 3 {
 				break
 			}
 			if j.r.Status != "failed" || j.r.FailObl != j.o || j.r.Fail == nil || j.r.Fail.Status != "timeout" {
